@@ -1364,7 +1364,7 @@ class SQLModel:
             quoted_query_name=self.quote_identifier(view_name),
             sub_sql=subsql.to_bound_near_sql(columns=columns),
             annotation=str(node.to_python_src_(print_sources=False, indent=-1)),
-            ops_key=f"select_columns({node})",
+            ops_key=f"select_columns({node}, {subsql.ops_key})",  # the wrapped step is part of the identity
         )
 
     def drop_columns_to_near_sql(
@@ -1736,6 +1736,27 @@ class SQLModel:
         sql_right = expr_right.to_near_sql_implementation_(
             db_model=self, using=using_joint, temp_id_source=temp_id_source
         )
+
+        def no_trailing_clauses(sub):
+            # a UNION ALL branch written in line must not end in its own ORDER BY / LIMIT:
+            # before the UNION it is a syntax error, after the last branch it would apply to the whole union
+            suffix = getattr(sub, "suffix", None)
+            if (suffix is not None) and any(
+                [
+                    si.strip().upper().startswith(("ORDER BY", "LIMIT"))
+                    for si in suffix
+                ]
+            ):
+                return self._select_from_raw_near_sql_(
+                    sub,
+                    columns=[c for c in concat_node.column_names if c in using_joint],
+                    node=concat_node,
+                    temp_id_source=temp_id_source,
+                )
+            return sub
+
+        sql_left = no_trailing_clauses(sql_left)
+        sql_right = no_trailing_clauses(sql_right)
         view_name = "concat_rows_" + str(temp_id_source[0])
         temp_id_source[0] = temp_id_source[0] + 1
         near_sql = data_algebra.near_sql.NearSQLBinaryStep(
